@@ -1067,6 +1067,7 @@ func (idx *MergeSetIndex) SearchSeriesIterator(span *tracing.Span, name []byte, 
 	is := idx.getIndexSearch()
 
 	is.setDeleted(idx.GetDeletedTSIDs())
+	is.promRegex = opt.IsPromQuery() || opt.IsPromRemoteRead()
 	itr, err := is.measurementSeriesByExprIterator(name, opt.Condition, singleSeries, tsid, opt.IsPromAbsentCall())
 	if search != nil {
 		search.Finish()
